@@ -420,8 +420,9 @@ def o_c09(meta, ans, ctx):
     if 'heap' not in kv: return 'shape: ' + ans[:60]
     heap, maps = int(kv['heap']), int(kv['maps'])
     what = 'succeeding' if kv.get('first') == 'ok' else ('panicking' if kv.get('first') == 'panic' else 'failing')
-    # allocator caches can retain a bounded amount; a leak grows with the repetitions
-    if heap >= meta['reps'] * 16: return 'heap-leak: %d live bytes more after %d %s loads (%s, %s)' % (heap, meta['reps'], what, meta['loader'], meta['variant'])
+    # live bytes are counted exactly by the harness allocator after a warm-up load; one-off allocations are
+    # tolerated, a leak grows with the repetitions (at least one byte each)
+    if heap >= meta['reps']: return 'heap-leak: %d live bytes more after %d %s loads (%s, %s)' % (heap, meta['reps'], what, meta['loader'], meta['variant'])
     if maps >= max(2, meta['reps'] // 4): return 'map-leak: %d mappings more after %d %s loads (%s, %s)' % (maps, meta['reps'], what, meta['loader'], meta['variant'])
     return None
 
